@@ -1,7 +1,17 @@
-(* Props/C04.v — emitted classes denote exactly the inferred model graph.  This revision: what the field bodies of each
-   generator contain, by case analysis on the emitter model (a default exactly when the field is optional; list / dict
-   factories for optional containers; alias / metadata exactly when the label differs from the key).  The printer /
-   parser round trip is merged from Proofs/ when finished; bytes are tied by X-emit, evaluated annotations by the oracle. *)
+(* Props/C04.v — emitted classes denote exactly the inferred model graph.
+   PART 1 (field bodies, proved here by case analysis on the emitter model): a default exactly when the field is optional;
+   list / dict factories for optional containers; alias / metadata exactly when the label differs from the key.
+   PART 2 (annotations; statements only, proofs in Proofs/AnnProps.v): parse_ann (Model/PyAnn.v) is a parser of the emitted
+   annotation language; denote is the SPECIFICATION of what a type denotes under a generator's style (a syntax tree, written
+   without reference to the printed text).  C04_parse_print: for EVERY type, style, name table and follow text, reading
+   the text that print_ty printed gives back denote t, and nothing of the follow text is consumed — so the annotation text
+   is unambiguous and denotes the inferred type.  C04_denote_injective says exactly which information a style erases
+   (pseudo-type vs its plain type under the actual-type styles, a literal set that is not shown, the overflow flag).
+   The side condition ann_wf excludes the empty Literal[] (C04_literal_empty_unreadable: Python rejects it too; the
+   pipeline never prints it: optimize turns an overflowed or empty literal set into str before emission).  Ties: print_ty = metadata_to_typing byte for byte and
+   parse_ann = CPython ast.parse on the printed texts (X-ann, tools/validate_pyann.py, every run); class bytes by X-emit.
+   NOT PROVED: the normalisation typing applies when the text is evaluated (Optional[X] = Union[X, None], flattening):
+   runtime; the oracle compares evaluated annotations with an independent rendering. *)
 From Coq Require Import List Bool Arith NArith String.
 From J2M.Model Require Import Base Framework Label Emit.
 Import ListNotations.
@@ -44,3 +54,58 @@ Section C04.
     destruct (inner t); reflexivity.
   Qed.
 End C04.
+
+(* ---- PART 2: annotations ---- *)
+From J2M.Model Require Import PyLex PyAnn.
+From J2M.Proofs Require Import AnnProps.
+
+Theorem C04_parse_print :
+  forall (names : N -> option str) (ctx : N -> option N) (o : opts) (t : ty) (i : list imp) (txt : str),
+       print_ty names ctx o t = Some (i, txt) ->
+       ann_wf names ctx o t = true ->
+       forall rest : str,
+       follow_ok rest = true ->
+       exists n : nat,
+         forall fuel : nat, n <= fuel -> parse_ann fuel (txt ++ rest) = Some (denote names ctx o t, rest).
+Proof. exact AnnProps.parse_print. Qed.
+
+Theorem C04_parse_print_fuel :
+  forall (names : N -> option str) (ctx : N -> option N) (o : opts) (t : ty) (i : list imp) (txt : str),
+       print_ty names ctx o t = Some (i, txt) ->
+       ann_wf names ctx o t = true ->
+       forall (rest : str) (fuel : nat),
+       follow_ok rest = true ->
+       ty_fuel t <= fuel -> parse_ann fuel (txt ++ rest) = Some (denote names ctx o t, rest).
+Proof. exact AnnProps.parse_print_fuel. Qed.
+
+Theorem C04_parse_print_all :
+  forall (names : N -> option str) (ctx : N -> option N) (o : opts) (t : ty) (i : list imp) (txt : str),
+       print_ty names ctx o t = Some (i, txt) ->
+       ann_wf names ctx o t = true ->
+       forall fuel : nat, ty_fuel t <= fuel -> parse_ann_all fuel txt = Some (denote names ctx o t).
+Proof. exact AnnProps.parse_print_all. Qed.
+
+Theorem C04_parse_ann_mono :
+  forall (n m : nat) (s : str) (r : ann * str),
+       parse_ann n s = Some r -> n <= m -> parse_ann m s = Some r.
+Proof. exact AnnProps.parse_ann_mono. Qed.
+
+Theorem C04_denote_erase :
+  forall (names : N -> option str) (ctx : N -> option N) (o : opts) (t : ty),
+       denote names ctx o (erase o t) = denote names ctx o t.
+Proof. exact AnnProps.denote_erase. Qed.
+
+Theorem C04_denote_injective :
+  forall (names : N -> option str) (ctx : N -> option N) (dom : list N),
+       (forall m m' : N, In m dom -> In m' dom -> qn names ctx m = qn names ctx m' -> m = m') ->
+       forall (o : opts) (a b : ty),
+       no_obj a = true ->
+       no_obj b = true ->
+       incl (ptrs a) dom ->
+       incl (ptrs b) dom -> denote names ctx o a = denote names ctx o b <-> erase o a = erase o b.
+Proof. exact AnnProps.denote_injective. Qed.
+
+Theorem C04_literal_empty_unreadable :
+  forall (fuel : nat) (rest : list N), parse_ann fuel (s_ "Literal[]" ++ rest) = None.
+Proof. exact AnnProps.literal_empty_unreadable. Qed.
+
